@@ -68,7 +68,12 @@ def _run_case(draw, tier):
             fld = dict(kind="zero")
         if draw(st.booleans()):
             cur = None
-    return dict(kind="run", device=dev, field=fld, seed=seed,
+    # another history: a run with other material parameters was made earlier in the same process on a copy of the device (a
+    # penetration-depth sweep; Device.copy() shares the mesh by design) - it must not leave anything behind that this run picks up
+    sweep = None
+    if seed is None and scr and draw(st.integers(0, 3)) == 0:
+        sweep = dict(lam=draw(st.sampled_from([0.5, 0.7, 1.6, 2.0])), d=draw(st.sampled_from([1.0, 1.0, 0.5, 2.0])), nsteps=draw(st.integers(1, 3)))
+    return dict(kind="run", device=dev, field=fld, seed=seed, sweep=sweep,
                 currents=cur,
                 options=dict(dt_c=draw(gen.rf(0.05, 0.4)), dtmax_c=0.45, adaptive=draw(st.booleans()), adaptive_window=3,
                              include_screening=scr, screening_tolerance=draw(st.sampled_from([1e-2, 1e-3, 1e-4, 3e-3])),
@@ -151,11 +156,26 @@ def _run(spec, res):
         tol = float(opts.screening_tolerance)
         alpha, beta = float(opts.screening_step_size), float(opts.screening_step_drag)
         seed_solution = None
+        if spec.get("sweep"):
+            sw = spec["sweep"]
+            res.label("after a run with another penetration depth / thickness on a copy of the device (shared mesh)")
+            other = dev.copy()
+            other.layer.london_lambda = dev.layer.london_lambda * sw["lam"]
+            other.layer.thickness = dev.layer.thickness * sw["d"]
+            o0 = dict(spec["options"], nsteps=int(sw["nsteps"]), save_every=100, max_iterations_per_step=1000, adaptive=False)
+            try:
+                build.make_solver(other, build.make_options(o0, other, output_file="sweep.h5"),
+                                  applied_vector_potential=build.make_vector_potential(spec["field"], other, opts.field_units, opts.solve_time),
+                                  terminal_currents=None).solve()
+            except (RuntimeError, ValueError) as exc:
+                if "converge" not in str(exc) and "does not contain any points" not in str(exc):
+                    raise
+                res.label("earlier sweep run did not complete (documented refusal)")
         if spec.get("seed"):
             sd = spec["seed"]
             res.label("starts from a saved state (" + ("screened" if sd["include_screening"] else "unscreened") + " earlier run)",
                       "undriven after the seed" if spec["field"]["kind"] == "zero" and not spec["currents"] else "driven after the seed")
-            o0 = dict(spec["options"], include_screening=bool(sd["include_screening"]) and scr, nsteps=int(sd["nsteps"]), save_every=100,
+            o0 = dict(spec["options"], include_screening=bool(sd["include_screening"]), nsteps=int(sd["nsteps"]), save_every=100,
                       max_iterations_per_step=1000, dt_c=0.4, adaptive=False)
             try:
                 seed_solution = build.make_solver(dev, build.make_options(o0, dev, output_file="seed.h5"),
